@@ -3,8 +3,10 @@ package main
 // C16: regenerates
 //   Gen/HealthFlags.lean  — the ATOMIC-STEP PROGRAM of SetHealthFlag / ClearHealthFlag (pkg/upstream/cluster/health.go):
 //                           which atomic accesses of the shared word occur in which order (load, store, CAS-and-return,
-//                           inside a retry loop or not), the pure modification each applies, and the host-side readers
-//                           Health()/ContainHealthFlag() of host.go;
+//                           inside a retry loop or not), the pure modification each applies, the host-side readers
+//                           Health()/ContainHealthFlag() of host.go, and the STEP PROGRAM of GetHealthFlagPointer: which
+//                           sync.Map operations on healthStore occur in which order (Load-and-return-on-hit, Store of a
+//                           fresh word, LoadOrStore of a fresh word), i.e. how the shared word itself is allocated;
 //   Gen/HealthCheck.lean  — the HandleSuccess / HandleFailure threshold automaton of
 //                           pkg/upstream/healthcheck/session_checker.go, the default thresholds and the zero->default
 //                           rule of newHealthChecker, and the (changed, isHealthy) arguments incHealthy/decHealthy pass
@@ -14,6 +16,8 @@ import (
 	"fmt"
 	"go/ast"
 	"go/token"
+	"os"
+	"path/filepath"
 	"strings"
 )
 
@@ -295,6 +299,342 @@ func (p *flagProg) lean() string {
 	return fmt.Sprintf("⟨[%s], %v⟩", strings.Join(a, ", "), p.loop)
 }
 
+
+// ---- GetHealthFlagPointer: the allocation of the shared word
+
+// retOfLoaded: does the statement list return the loaded value `v` as a *uint64 and nothing else?
+//   return v.(*uint64)   |   p, _ := v.(*uint64); return p   |   p := v.(*uint64); return p
+func retOfLoaded(l []ast.Stmt, v string) bool {
+	isAssert := func(e ast.Expr) bool {
+		ta, ok := e.(*ast.TypeAssertExpr)
+		return ok && exprKey(ta.X) == v && ta.Type != nil && exprKey(ta.Type) == "*uint64"
+	}
+	switch len(l) {
+	case 1:
+		r, ok := l[0].(*ast.ReturnStmt)
+		return ok && len(r.Results) == 1 && isAssert(r.Results[0])
+	case 2:
+		a, ok := l[0].(*ast.AssignStmt)
+		if !ok || a.Tok != token.DEFINE || len(a.Rhs) != 1 || !isAssert(a.Rhs[0]) || len(a.Lhs) < 1 || len(a.Lhs) > 2 {
+			return false
+		}
+		if len(a.Lhs) == 2 && exprKey(a.Lhs[1]) != "_" {
+			return false
+		}
+		p, ok := a.Lhs[0].(*ast.Ident)
+		if !ok || p.Name == "_" {
+			return false
+		}
+		r, ok := l[1].(*ast.ReturnStmt)
+		return ok && len(r.Results) == 1 && exprKey(r.Results[0]) == p.Name
+	}
+	return false
+}
+
+func isZeroU64(e ast.Expr) bool {
+	if c, ok := e.(*ast.CallExpr); ok && exprKey(c.Fun) == "uint64" && len(c.Args) == 1 {
+		e = c.Args[0]
+	}
+	l, ok := e.(*ast.BasicLit)
+	return ok && l.Kind == token.INT && (l.Value == "0" || l.Value == "0x0")
+}
+
+// ptrProgram reads the body of GetHealthFlagPointer(addr) as a straight-line list of sync.Map operations on
+// `healthStore` with key `addr`, each preceded by `verifYield(<its index>)`:
+//   loadRet         v, ok := healthStore.Load(addr); if ok { return v.(*uint64) }      (both `if` spellings)
+//   storeRet        healthStore.Store(addr, fresh); return fresh
+//   loadOrStoreRet  v, _ := healthStore.LoadOrStore(addr, fresh); return v.(*uint64)
+// where `fresh` is a word allocated by THIS call and initialised to zero (new(uint64), &f of a local f := uint64(0) /
+// var f uint64, the func literal of the original code, or a local bound to one of these).  The allocation itself is
+// thread-local and not a step.  Anything else is rejected.
+func ptrProgram(fd *ast.FuncDecl) ([]string, error) {
+	const fn = "GetHealthFlagPointer"
+	const store = "healthStore"
+	if fd.Type.Params == nil || len(fd.Type.Params.List) != 1 || len(fd.Type.Params.List[0].Names) != 1 {
+		return nil, fmt.Errorf("%s: expected (addr string)", fn)
+	}
+	addr := fd.Type.Params.List[0].Names[0].Name
+	zero := map[string]bool{}  // local uint64 variables known to be zero and never written
+	fresh := map[string]bool{} // local *uint64 variables holding a word allocated by this call
+	isFresh := func(e ast.Expr) (string, bool) { // returns a key identifying the allocated word
+		switch x := e.(type) {
+		case *ast.ParenExpr:
+			return "", false
+		case *ast.Ident:
+			return "id:" + x.Name, fresh[x.Name]
+		case *ast.UnaryExpr:
+			if id, ok := x.X.(*ast.Ident); ok && x.Op == token.AND && zero[id.Name] {
+				return "addr:" + id.Name, true
+			}
+		case *ast.CallExpr:
+			if exprKey(x.Fun) == "new" && len(x.Args) == 1 && exprKey(x.Args[0]) == "uint64" {
+				return "new", true
+			}
+			// func() *uint64 { f := uint64(0); return &f }()
+			if fl, ok := x.Fun.(*ast.FuncLit); ok && len(x.Args) == 0 && len(fl.Body.List) == 2 {
+				a, ok1 := fl.Body.List[0].(*ast.AssignStmt)
+				r, ok2 := fl.Body.List[1].(*ast.ReturnStmt)
+				if ok1 && ok2 && a.Tok == token.DEFINE && len(a.Lhs) == 1 && len(a.Rhs) == 1 && isZeroU64(a.Rhs[0]) &&
+					len(r.Results) == 1 && exprKey(r.Results[0]) == "&"+exprKey(a.Lhs[0]) {
+					if c, ok := a.Rhs[0].(*ast.CallExpr); ok && exprKey(c.Fun) == "uint64" {
+						return "lit", true
+					}
+				}
+			}
+		}
+		return "", false
+	}
+	mapCall := func(e ast.Expr, method string, nargs int) (*ast.CallExpr, bool) {
+		c, ok := e.(*ast.CallExpr)
+		if !ok || exprKey(c.Fun) != store+"."+method || len(c.Args) != nargs || exprKey(c.Args[0]) != addr {
+			return nil, false
+		}
+		return c, true
+	}
+	var atoms []string
+	yielded := ""
+	needYield := func() error {
+		want := fmt.Sprint(len(atoms))
+		if yielded != want {
+			return fmt.Errorf("%s: no verifYield(%s) immediately before health-store operation #%s (the scheduler could not interleave there)", fn, want, want)
+		}
+		yielded = ""
+		return nil
+	}
+	body := fd.Body.List
+	for i := 0; i < len(body); i++ {
+		st := body[i]
+		if y, site := isYield(st); y {
+			yielded = site
+			continue
+		}
+		switch x := st.(type) {
+		case *ast.DeclStmt: // var f uint64
+			gd, ok := x.Decl.(*ast.GenDecl)
+			if !ok || gd.Tok != token.VAR || len(gd.Specs) != 1 {
+				return nil, fmt.Errorf("%s: unsupported declaration", fn)
+			}
+			vs := gd.Specs[0].(*ast.ValueSpec)
+			if len(vs.Names) != 1 || vs.Type == nil || exprKey(vs.Type) != "uint64" || len(vs.Values) > 1 ||
+				(len(vs.Values) == 1 && !isZeroU64(vs.Values[0])) {
+				return nil, fmt.Errorf("%s: only `var f uint64` (zero) is supported", fn)
+			}
+			zero[vs.Names[0].Name] = true
+		case *ast.AssignStmt:
+			if len(x.Rhs) != 1 {
+				return nil, fmt.Errorf("%s: multi-value assignment", fn)
+			}
+			// v, _ := healthStore.LoadOrStore(addr, fresh)  + return of v
+			if c, ok := mapCall(x.Rhs[0], "LoadOrStore", 2); ok {
+				if _, ok := isFresh(c.Args[1]); !ok {
+					return nil, fmt.Errorf("%s: LoadOrStore does not offer a word freshly allocated (and zero) by this call", fn)
+				}
+				if x.Tok != token.DEFINE || len(x.Lhs) != 2 || exprKey(x.Lhs[1]) != "_" {
+					return nil, fmt.Errorf("%s: expected `v, _ := %s.LoadOrStore(%s, fresh)`", fn, store, addr)
+				}
+				if !retOfLoaded(body[i+1:], exprKey(x.Lhs[0])) {
+					return nil, fmt.Errorf("%s: the value returned by LoadOrStore is not what the function returns", fn)
+				}
+				if err := needYield(); err != nil {
+					return nil, err
+				}
+				return append(atoms, "loadOrStoreRet"), nil
+			}
+			// v, ok := healthStore.Load(addr); if ok { return v }
+			if _, ok := mapCall(x.Rhs[0], "Load", 1); ok {
+				if x.Tok != token.DEFINE || len(x.Lhs) != 2 || i+1 >= len(body) {
+					return nil, fmt.Errorf("%s: expected `v, ok := %s.Load(%s)` followed by `if ok { return v }`", fn, store, addr)
+				}
+				ifs, isIf := body[i+1].(*ast.IfStmt)
+				if !isIf || ifs.Init != nil || ifs.Else != nil || exprKey(ifs.Cond) != exprKey(x.Lhs[1]) ||
+					!retOfLoaded(ifs.Body.List, exprKey(x.Lhs[0])) {
+					return nil, fmt.Errorf("%s: a Load must be followed by `if ok { return v.(*uint64) }`", fn)
+				}
+				if err := needYield(); err != nil {
+					return nil, err
+				}
+				atoms = append(atoms, "loadRet")
+				i++
+				continue
+			}
+			// allocation of the fresh word: thread-local, not a step
+			lhs, ok := x.Lhs[0].(*ast.Ident)
+			if !ok || len(x.Lhs) != 1 || x.Tok != token.DEFINE || zero[lhs.Name] || fresh[lhs.Name] {
+				return nil, fmt.Errorf("%s: unsupported assignment", fn)
+			}
+			if isZeroU64(x.Rhs[0]) {
+				if c, ok := x.Rhs[0].(*ast.CallExpr); !ok || exprKey(c.Fun) != "uint64" {
+					return nil, fmt.Errorf("%s: the fresh word must be declared as uint64", fn)
+				}
+				zero[lhs.Name] = true
+			} else if _, ok := isFresh(x.Rhs[0]); ok {
+				if id, isID := x.Rhs[0].(*ast.Ident); isID {
+					return nil, fmt.Errorf("%s: alias %s of a fresh word", fn, id.Name)
+				}
+				fresh[lhs.Name] = true
+			} else {
+				return nil, fmt.Errorf("%s: unsupported assignment to %s", fn, lhs.Name)
+			}
+		case *ast.IfStmt: // if v, ok := healthStore.Load(addr); ok { return v }
+			a, ok := x.Init.(*ast.AssignStmt)
+			if !ok || x.Else != nil || a.Tok != token.DEFINE || len(a.Lhs) != 2 || len(a.Rhs) != 1 {
+				return nil, fmt.Errorf("%s: unsupported if statement", fn)
+			}
+			if _, ok := mapCall(a.Rhs[0], "Load", 1); !ok || exprKey(x.Cond) != exprKey(a.Lhs[1]) ||
+				!retOfLoaded(x.Body.List, exprKey(a.Lhs[0])) {
+				return nil, fmt.Errorf("%s: only `if v, ok := %s.Load(%s); ok { return v.(*uint64) }` is supported", fn, store, addr)
+			}
+			if err := needYield(); err != nil {
+				return nil, err
+			}
+			atoms = append(atoms, "loadRet")
+		case *ast.ExprStmt: // healthStore.Store(addr, fresh); return fresh
+			c, ok := mapCall(x.X, "Store", 2)
+			if !ok {
+				return nil, fmt.Errorf("%s: unsupported statement", fn)
+			}
+			k, ok := isFresh(c.Args[1])
+			if !ok || k == "new" || k == "lit" {
+				return nil, fmt.Errorf("%s: Store does not store a named word freshly allocated (and zero) by this call", fn)
+			}
+			if i+2 != len(body) {
+				return nil, fmt.Errorf("%s: a Store must be followed by the return of the stored word", fn)
+			}
+			r, isRet := body[i+1].(*ast.ReturnStmt)
+			if !isRet || len(r.Results) != 1 {
+				return nil, fmt.Errorf("%s: a Store must be followed by the return of the stored word", fn)
+			}
+			if k2, ok := isFresh(r.Results[0]); !ok || k2 != k {
+				return nil, fmt.Errorf("%s: the word returned after Store is not the stored one", fn)
+			}
+			if err := needYield(); err != nil {
+				return nil, err
+			}
+			return append(atoms, "storeRet"), nil
+		default:
+			return nil, fmt.Errorf("%s: unsupported statement %T", fn, st)
+		}
+	}
+	return nil, fmt.Errorf("%s: the function can fall off its health-store operations without returning a word", fn)
+}
+
+// storeOnlyInGetter: `healthStore` must be a package-level sync.Map that no non-test file of the package touches
+// outside GetHealthFlagPointer (an entry that is deleted or replaced elsewhere would hand a later host another word).
+func storeOnlyInGetter(dir string) error {
+	ents, err := os.ReadDir(filepath.Join(repo, dir))
+	if err != nil {
+		return err
+	}
+	declared := false
+	for _, e := range ents {
+		n := e.Name()
+		if e.IsDir() || !strings.HasSuffix(n, ".go") || strings.HasSuffix(n, "_test.go") {
+			continue
+		}
+		f, err := parse(dir + "/" + n)
+		if err != nil {
+			return err
+		}
+		for _, d := range f.Decls {
+			switch x := d.(type) {
+			case *ast.GenDecl:
+				for _, sp := range x.Specs {
+					vs, ok := sp.(*ast.ValueSpec)
+					if !ok {
+						continue
+					}
+					for i, nm := range vs.Names {
+						if nm.Name != "healthStore" {
+							continue
+						}
+						ok := x.Tok == token.VAR && len(vs.Names) == 1
+						if ok && vs.Type != nil {
+							ok = exprKey(vs.Type) == "sync.Map" && len(vs.Values) == 0
+						} else if ok {
+							cl, isCl := vs.Values[i].(*ast.CompositeLit)
+							ok = isCl && exprKey(cl.Type) == "sync.Map" && len(cl.Elts) == 0
+						}
+						if !ok {
+							return fmt.Errorf("healthStore is not declared as an empty package-level sync.Map")
+						}
+						declared = true
+					}
+				}
+			case *ast.FuncDecl:
+				if x.Body == nil || (x.Recv == nil && x.Name.Name == "GetHealthFlagPointer") {
+					continue
+				}
+				if mentions(x.Body, "healthStore") {
+					return fmt.Errorf("healthStore is accessed outside GetHealthFlagPointer (%s in %s)", x.Name.Name, n)
+				}
+			}
+		}
+	}
+	if !declared {
+		return fmt.Errorf("healthStore declaration not found")
+	}
+	return nil
+}
+
+
+// hostsShareByAddress: every simpleHost literal of the package (non-test files) must take its word from
+// GetHealthFlagPointer(E) with E the very expression it stores as addressString: "same address" in the property is the
+// key of healthStore.
+func hostsShareByAddress(dir string) error {
+	ents, err := os.ReadDir(filepath.Join(repo, dir))
+	if err != nil {
+		return err
+	}
+	n := 0
+	var bad error
+	for _, e := range ents {
+		nm := e.Name()
+		if e.IsDir() || !strings.HasSuffix(nm, ".go") || strings.HasSuffix(nm, "_test.go") {
+			continue
+		}
+		f, err := parse(dir + "/" + nm)
+		if err != nil {
+			return err
+		}
+		ast.Inspect(f, func(nd ast.Node) bool {
+			cl, ok := nd.(*ast.CompositeLit)
+			if !ok || cl.Type == nil || exprKey(cl.Type) != "simpleHost" {
+				return true
+			}
+			n++
+			addr, word := "", ""
+			for _, el := range cl.Elts {
+				kv, ok := el.(*ast.KeyValueExpr)
+				if !ok {
+					bad = fmt.Errorf("%s: positional simpleHost literal", nm)
+					return true
+				}
+				switch exprKey(kv.Key) {
+				case "addressString":
+					addr = exprKey(kv.Value)
+				case "healthFlags":
+					if c, ok := kv.Value.(*ast.CallExpr); ok && exprKey(c.Fun) == "GetHealthFlagPointer" && len(c.Args) == 1 {
+						word = exprKey(c.Args[0])
+					} else {
+						word = "?"
+					}
+				}
+			}
+			if addr == "" || word != addr || strings.HasPrefix(addr, "?") {
+				bad = fmt.Errorf("%s: a simpleHost literal does not take healthFlags from GetHealthFlagPointer(<its addressString>) (addressString: %q, word of: %q)", nm, addr, word)
+			}
+			return true
+		})
+	}
+	if bad != nil {
+		return bad
+	}
+	if n == 0 {
+		return fmt.Errorf("no simpleHost literal found")
+	}
+	return nil
+}
+
 func genHealthFlags() (string, error) {
 	const src = "pkg/upstream/cluster/health.go"
 	const hostSrc = "pkg/upstream/cluster/host.go"
@@ -366,7 +706,21 @@ func genHealthFlags() (string, error) {
 	if !shared {
 		return "", fmt.Errorf("NewSimpleHost does not take healthFlags from GetHealthFlagPointer(config.Address)")
 	}
-	s := header("HealthFlags", src+" (SetHealthFlag, ClearHealthFlag)", hostSrc+" (Health, ContainHealthFlag)")
+	pfd := findFunc(f, "", "GetHealthFlagPointer")
+	if pfd == nil {
+		return "", fmt.Errorf("GetHealthFlagPointer not found")
+	}
+	ptrAtoms, err := ptrProgram(pfd)
+	if err != nil {
+		return "", err
+	}
+	if err := storeOnlyInGetter("pkg/upstream/cluster"); err != nil {
+		return "", err
+	}
+	if err := hostsShareByAddress("pkg/upstream/cluster"); err != nil {
+		return "", err
+	}
+	s := header("HealthFlags", src+" (SetHealthFlag, ClearHealthFlag, GetHealthFlagPointer)", hostSrc+" (Health, ContainHealthFlag)")
 	s += `/-- one atomic access of the shared flag word, as it occurs in the Go source -/
 inductive Atom where
   | load    -- local := atomic.LoadUint64(p)
@@ -388,6 +742,22 @@ structure Prog where
 	s += "def clearModify (old flag : BitVec 64) : BitVec 64 := " + progs[1].modify + "\n"
 	s += "/-- simpleHost.Health() -/\ndef health (word : BitVec 64) : Bool := " + health + "\n"
 	s += "/-- simpleHost.ContainHealthFlag(flag) -/\ndef containFlag (word flag : BitVec 64) : Bool := " + contain + "\n"
+	s += `
+/-- one operation of GetHealthFlagPointer(addr) on the address → word map ` + "`healthStore`" + ` (a sync.Map), as it occurs in the
+Go source; ` + "`fresh`" + ` is a zero word allocated by the call itself. A ` + "`verifYield(i)`" + ` precedes operation ` + "`i`" + `. -/
+inductive PtrAtom where
+  | loadRet         -- if v, ok := healthStore.Load(addr); ok { return v.(*uint64) }
+  | storeRet        -- healthStore.Store(addr, fresh); return fresh
+  | loadOrStoreRet  -- v, _ := healthStore.LoadOrStore(addr, fresh); return v.(*uint64)
+  deriving DecidableEq, Repr
+
+`
+	var pa []string
+	for _, a := range ptrAtoms {
+		pa = append(pa, "."+a)
+	}
+	s += "/-- GetHealthFlagPointer: its health-store operations in program order -/\ndef ptrProg : List PtrAtom := [" + strings.Join(pa, ", ") + "]\n"
+	s += "/-- the initial value of a word allocated by GetHealthFlagPointer -/\ndef ptrFresh : BitVec 64 := 0\n"
 	s += footer("HealthFlags")
 	return s, nil
 }
